@@ -46,7 +46,14 @@ def baseline(dst):
             continue
         if ev.get("Action") == "fail" and ev.get("Test"):
             failed.add(ev["Test"].split("/")[0])
-    return sorted(failed - ALLOWED_FAIL)
+    failed = sorted(failed - ALLOWED_FAIL)
+    # the machine is busy: a timing-sensitive test may fail spuriously; keep only failures that persist in isolation
+    persistent = []
+    for name in failed:
+        rc, _ = run(["go", "test", "-vet=off", "-count=3", "-run", "^%s$" % name, "-timeout", "10m", "."], dst)
+        if rc != 0:
+            persistent.append(name)
+    return persistent
 
 
 def verify(src, sid):
